@@ -7,7 +7,7 @@ from .lin import Lin
 from .avals import *   # noqa
 from .avals import value_tags
 from . import seqops
-from .signals import Raised, Returned, BreakSig, ContinueSig, LoopBack, Abandon
+from .signals import Raised, Returned, BreakSig, ContinueSig, LoopBack, Abandon, ConsumerSignal
 
 
 def _assigned_targets(body):
@@ -177,6 +177,31 @@ class LoopMixin:
         names, attrs, mutated = _assigned_targets(body)
         fr = self.frames[-1]
         keys = []
+        cons = self._consumer_targets()
+        if cons is not None and any(isinstance(n, (ast.Yield, ast.YieldFrom)) for b in body for n in ast.walk(b)):
+            cfr = self.frames[cons['depth'] - 1]
+            cn, ca, cm = _assigned_targets(cons['node'].body + [ast.Assign(targets=[cons['node'].target], value=ast.Constant(value=None))])
+            for n in sorted(cn):
+                if n in cfr.locals:
+                    keys.append(('clocal', n, cfr))
+            cself = cfr.self_obj
+            if isinstance(cself, ObjV):
+                for (b_, a_) in sorted(ca):
+                    if b_ == 'self':
+                        keys.append(('cattr', a_, cself))
+            for m in cm:
+                v = cfr.locals.get(m[1]) if m[0] == 'local' else None
+                if isinstance(v, ListV):
+                    if v.items is not None:
+                        v.prev_items = list(v.items)
+                        v.elem = self.join_many(v.items) if v.items else v.elem
+                    v.items = None
+                    if m[-1] == 'resize' or v.len is None:
+                        sname = self.fresh('n')
+                        self.store.declare(sname, 0, None)
+                        v.len = Lin.sym(sname)
+                elif isinstance(v, DictV):
+                    v.open = True
         for n in sorted(names):
             if n in fr.locals and n not in extra_targets:
                 keys.append(('local', n))
@@ -190,6 +215,10 @@ class LoopMixin:
 
     def _read_key(self, k):
         fr = self.frames[-1]
+        if k[0] == 'clocal':
+            return k[2].locals.get(k[1])
+        if k[0] == 'cattr':
+            return k[2].fields.get(k[1])
         if k[0] == 'local':
             return fr.locals.get(k[1])
         obj = fr.self_obj
@@ -202,6 +231,12 @@ class LoopMixin:
 
     def _write_key(self, k, v):
         fr = self.frames[-1]
+        if k[0] == 'clocal':
+            k[2].locals[k[1]] = v
+            return
+        if k[0] == 'cattr':
+            k[2].fields[k[1]] = v
+            return
         if k[0] == 'local':
             fr.locals[k[1]] = v
         else:
@@ -254,12 +289,26 @@ class LoopMixin:
             if level == 1:
                 self.store.declare(s, None, None, info=f'{key[1]} at loop head (>= entry value)')
                 self.store.assume_ge0(Lin.sym(s) - base)
+                # Houdini-style upper bounds: loop-invariant integers / lengths that bound the entry value
+                ubs = []
+                for u in self._bound_candidates(node):
+                    dk = (id(node), key, 'ub:' + repr(u))
+                    if it.an.widen.get(dk):
+                        continue
+                    if it.store.prove_ge0(u - base):
+                        ubs.append((dk, u))
+                for dk, u in ubs:
+                    self.store.assume_ge0(u - Lin.sym(s))
 
                 def chk1(new):
                     if not isinstance(new, IntV):
                         request(3)
                     elif not it.store.prove_ge0(new.lin - base):
                         request(2 if it.store.prove_ge0(base - new.lin) else 3)
+                    else:
+                        for dk, u in ubs:
+                            if not it.store.prove_ge0(u - new.lin):
+                                it.an.widen_requests[dk] = 1
                 return Gen(IntV(Lin.sym(s), pre_r.tags), chk1)
             if level == 2:
                 self.store.declare(s, None, None, info=f'{key[1]} at loop head (<= entry value)')
@@ -337,8 +386,27 @@ class LoopMixin:
         # SymV / UnkV / tuples: fresh opaque
         return Gen(SymV(self.fresh(f'{key[1]}@loop'), 'any', tags=value_tags(pre_r)), lambda new: None)
 
+    def _bound_candidates(self, node):
+        """integers and lengths that the loop does not modify (candidate upper bounds for loop cursors)"""
+        fr = self.frames[-1]
+        mods = getattr(self, '_cur_mods', set())
+        out = []
+        for n, v in fr.locals.items():
+            if ('local', n) in mods:
+                continue
+            v = self.resolve(v)
+            lin = None
+            if isinstance(v, IntV):
+                lin = self.store.canon(v.lin)
+            elif isinstance(v, SeqV):
+                lin = self.store.canon(v.length())
+            if lin is not None and not lin.is_const() and lin not in out:
+                out.append(lin)
+        return out[:6]
+
     def _loop_head(self, st, body, extra_targets=()):
         keys, mutated = self._loop_keys(st, body, extra_targets)
+        self._cur_mods = set(keys)
         pre = {k: self._read_key(k) for k in keys}
         gens = {}
         for k in keys:
@@ -422,8 +490,37 @@ class LoopMixin:
         self.note_unknown(node, f'iteration over {itv!r}')
         return UnkV('elem'), None
 
+    def _for_generator(self, st, g):
+        """for x in <generator call>: run the generator body; the loop body executes at every yield."""
+        if g.started:
+            self.note_unknown(st, 'generator consumed twice')
+            return
+        g.started = True
+        self.consumers = getattr(self, 'consumers', [])
+        self.consumers.append({'node': st, 'depth': len(self.frames), 'stack': self.stack})
+        self.event('for-iter', st, iterable=g)
+        try:
+            self._starting_generator = True
+            self.call_function(g.fi, g.args, g.kwargs, self_obj=g.self_obj, node=st.iter, cls_obj=g.cls_obj, closure=g.closure)
+        except ConsumerSignal as cs:
+            self.consumers.pop()
+            if isinstance(cs.inner, BreakSig):
+                return
+            raise cs.inner
+        self.consumers.pop()
+        self.exec_block(st.orelse)
+
+    def _consumer_targets(self):
+        """variables of the consuming loop (another frame) that a generator's loop must generalise too"""
+        cons = getattr(self, 'consumers', None)
+        if not cons:
+            return None
+        return cons[-1]
+
     def st_For(self, st):
         itv = self.resolve(self.eval(st.iter))
+        if isinstance(itv, GenCallV):
+            return self._for_generator(st, itv)
         # exact iteration over small concrete collections
         items = None
         if isinstance(itv, (ListV, TupleV)) and itv.items is not None and len(itv.items) <= 4:
